@@ -315,12 +315,14 @@ def extract_fn(repo: Path, unit: VUnit, f: Fn) -> tuple[str, dict]:
             info["rewrites"].append(f"{rw.rule}: /{rw.pattern}/ -> '{rw.repl}' x{n}")
         body = new
     # ---- inserts
-    for regex, ordinal, text in f.inserts:
+    for ins in f.inserts:
+        regex, ordinal, text = ins[0], ins[1], ins[2]
+        where = ins[3] if len(ins) > 3 else "before"
         lines = body.split("\n")
         hits = [i for i, l in enumerate(lines) if re.search(regex, l)]
         if len(hits) < ordinal:
             raise LostAnchor(f"fn {f.name}: insert anchor /{regex}/ #{ordinal} not found")
-        lines.insert(hits[ordinal - 1], text)
+        lines.insert(hits[ordinal - 1] + (1 if where == "after" else 0), text)
         body = "\n".join(lines)
     # ---- signature
     if f.sig:
